@@ -149,6 +149,7 @@ class MacroProgram(ElementProgram):
 
         # Internal array for current interpolation status
         self._interpolation = [True]
+        self._implicit_translation = [True]
 
         # Internal dictionary of macro definitions
         self._macros = {}
@@ -662,12 +663,25 @@ class MacroProgram(ElementProgram):
 
         self._interpolation.append(INTERPOLATION)
 
+        # Text inside an element marked for translation is part of that
+        # element's message: it is not (implicitly) translated on its
+        # own as well. A named block inside stands for itself again.
+        if (I18N, 'translate') in ns:
+            IMPLICIT = False
+        elif (I18N, 'name') in ns:
+            IMPLICIT = True
+        else:
+            IMPLICIT = self._implicit_translation[-1]
+
+        self._implicit_translation.append(IMPLICIT)
+
         # Visit content body
         for child in children:
             body.append(self.visit(*child))
 
         self._switches.pop()
         self._interpolation.pop()
+        self._implicit_translation.pop()
 
         if use_macro or extend_macro:
             self._use_macro.pop()
@@ -731,7 +745,10 @@ class MacroProgram(ElementProgram):
     def visit_text(self, node):
         self._last = node
 
-        translation = self.implicit_i18n_translate
+        translation = (
+            self.implicit_i18n_translate and
+            self._implicit_translation[-1]
+        )
 
         if self._interpolation[-1] and '${' in node:
             char_escape = ('&', '<', '>') if self.escape else ()
